@@ -287,10 +287,27 @@ pub fn gen_func(
     if !call_last {
         insns.push(body(p, arch));
         if !is_root {
+            // a quarter of the functions end in a tail call instead of a return. framehop
+            // recognises a tail call by what precedes the jump (x86-64: a pop; arm64: an
+            // instruction that adjusts sp), so only those shapes are generated; a signed return
+            // address is authenticated by `retab`, never left signed across a plain `b`.
+            let last_is_pop = matches!(epilogue.last().map(|i| &i.eff), Some(Eff::PopOther) | Some(Eff::PopFp));
+            let last_adjusts_sp = matches!(epilogue.last().map(|i| &i.eff), Some(Eff::LdpFpLrPost(_)) | Some(Eff::AddSp(_)));
+            let tail = p.chance(1, 4)
+                && match arch {
+                    Arch::X64 => last_is_pop,
+                    Arch::A64 => !pac && last_adjusts_sp,
+                };
             insns.extend(epilogue);
-            insns.push(match arch {
-                Arch::X64 => Insn { bytes: vec![0xc3], eff: Eff::Ret },
-                Arch::A64 => a64(0xd65f03c0, Eff::Ret),
+            insns.push(match (arch, tail) {
+                (Arch::X64, false) => Insn { bytes: vec![0xc3], eff: Eff::Ret },
+                (Arch::A64, false) => a64(0xd65f03c0, Eff::Ret),
+                (Arch::X64, true) => Insn {
+                    bytes: p.pick(&[vec![0xe9u8, 0x40, 0x01, 0x00, 0x00], vec![0xeb, 0x40], vec![0xff, 0xe0]]).clone(),
+                    eff: Eff::Ret,
+                },
+                // `b target` / `br x16`
+                (Arch::A64, true) => a64(*p.pick(&[0x1400_0040u32, 0xd61f_0200]), Eff::Ret),
             });
         } else {
             // the root never returns: it ends in a call (exit)
